@@ -364,7 +364,8 @@ def rule_G(ctx):
     # the NaN values of the data are NOT the module's NAN object (NaN read from a file, produced by arithmetic or by numpy is another object)
     DNAN = float('nan')
     assert DNAN is not NANV
-    lists = [list(t_) for L in range(0, 6 if ctx.tier == 'thorough' else 5) for t_ in itertools.product((DNAN, 1.0, 3.0, -2.0), repeat=L)]
+    lists = [list(t_) for L in range(0, 6 if ctx.tier == 'thorough' else 5) for t_ in itertools.product((DNAN, 0.0, 3.0, -2.0), repeat=L)]
+    lists += [[1.0, 3.0, -2.0], [-4.0, 0.0, -1.5], [0.0, -0.0, 0.0], [-1.0, -3.0], [2.0, 2.0, 2.0], [0, 5, -5], [1e-300, 0.0, -1e-300]]
     lists += [[NANV, 1.0, DNAN], [NANV], [NANV, NANV, 2.0]]
     for name, orc in oracle.items():
         f = ctx.prog.maybe_func(UT + '.' + name)
@@ -461,6 +462,7 @@ def rule_G(ctx):
         'three tracks sharing one uid, their i-th fixes in different cells': [(0, [(5, 5), (15, 5)], [1.0, 2.0]), (0, [(25, 15), (5, 15)], [5.0, 7.0]), (0, [(15, 15), (15, 15)], [DNAN, 9.0])],
         'values that are zero (0.0, -0.0, the integer 0) next to others': [(1, [(5, 5), (5, 6), (15, 5), (25, 15)], [0.0, 3.0, 0, -0.0]), (2, [(5, 5), (15, 5), (25, 15), (25, 16)], [0.0, 0.0, 2.0, -2.0])],
     }
+    uid_aggs = ['co_count', 'co_sum', 'co_max']
     aggs = ['co_median', 'co_count', 'co_sum', 'co_min', 'co_max', 'co_avg']      # the median first: the later maps read the same per-cell lists
     nodata = ctx.prog.module(RAS).consts.get('NO_DATA_VALUE')
     nodata = -nodata.operand.value if isinstance(nodata, ast.UnaryOp) else (nodata.value if isinstance(nodata, ast.Constant) else -99999.0)
@@ -471,22 +473,37 @@ def rule_G(ctx):
             r = R(Bb(*ext), res, 0.0)
             for ag in aggs:
                 r.call('addAFMap', 'v#' + ag)
+            # the pseudo-feature 'uid' (the identifier of the track of each observation) under a multiplicity-sensitive aggregate
+            for ag in uid_aggs:
+                r.call('addAFMap', 'uid#' + ag)
             coll = Coll([Tr(uid, pts, {'v': vals}) for uid, pts, vals in tracks])
             r.call('addCollectionToRaster', coll)
             r.call('computeAggregates')
             maps = {ag: r.call('getAFMap', 'v#' + ag).fields['grid'] for ag in aggs}
+            umaps = {ag: r.call('getAFMap', 'uid#' + ag).fields['grid'] for ag in uid_aggs}
         except orders.Unsupported as ex:
             raise shape_error('raster pipeline not interpretable: %s' % ex, fa.loc())
         except (IndexError, ZeroDivisionError, TypeError, ValueError, AttributeError, KeyError, orders.Raised) as ex:
             bad = bad or {'collection': lname, 'exception': '%s: %s' % (type(ex).__name__, str(ex)[:200])}
             continue
-        cells = {}
+        cells, ucells = {}, {}
         for uid, pts, vals in tracks:
             for (x, y), v in zip(pts, vals):
                 col, k = int(x // 10), int(y // 10)
                 cells.setdefault((col, 2 - 1 - k), []).append(v)
+                ucells.setdefault((col, 2 - 1 - k), []).append(uid)
         for row in range(2):
             for col in range(3):
+                us = ucells.get((col, row), [])
+                for ag in uid_aggs:
+                    want = oracle[ag]([float(u) for u in us])
+                    if isn(want):
+                        want = nodata
+                    got = umaps[ag][row][col]
+                    if not same(got, want) and bad is None:
+                        bad = {'collection': lname, 'tracks (uid, positions)': [[uid, [list(p_) for p_ in pts]] for uid, pts, vals in tracks],
+                               'cell (column, row)': [col, row], 'aggregate': 'uid#' + ag, 'stored': got, 'expected': want,
+                               'uids of the observations lying in that cell (one per observation)': us}
                 vs = [v for v in cells.get((col, row), []) if not isn(v)]
                 for ag in aggs:
                     want = oracle[ag](vs)
